@@ -127,6 +127,7 @@ def reference_build(build):
     values = {}
     top_values = {}      # only entries of the top-level mapping are visible as names / through ayns.cfg
     failed = {}
+    user_data = B({})      # per evaluation
     # entries are evaluated on first use: one that reads another entry of the document waits for it
     pending = list(build['evals'])
     order = []
@@ -139,7 +140,7 @@ def reference_build(build):
         ns.update(cfg)
         ns.update(top_values)
         allkeys = {k: None for k in _top_level_keys(build)}
-        ns['ayns'] = B({'cfg': B({**allkeys, **cfg, **top_values})})
+        ns['ayns'] = B({'cfg': B({**allkeys, **cfg, **top_values}), 'ctx': B({'user_data': user_data})})
         ns.update(syms)
         deps_failed = [k for k in failed if _mentions(ev, k)]
         if deps_failed:
@@ -241,7 +242,11 @@ def _gen_evals(r, env, n):
         g = ProgGen(r, env, p_error=r.choice([0.0, 0.1, 0.3]))
         key = f'e{i}'
         if kind == 'eval':
-            if r.random() < 0.1:
+            if r.random() < 0.04:
+                # the scratch area of the evaluation context: fresh for every evaluation, whatever the context object went through before
+                lines = ["ayns.ctx.user_data.setdefault('log', []).append(ca)", "[list(ayns.ctx.user_data['log']), sorted(ayns.ctx.user_data)]"]
+                g.features.add('context_user_data')
+            elif r.random() < 0.1:
                 lines = [r.choice(['ayns.cfg.ca + 1', "ayns.cfg.cm['x'] * 2", 'ayns.cfg.cl[0] + s1', 'len(ayns.cfg) + ca',
                                    "[('cm' in ayns.cfg), ('nonexistent' in ayns.cfg), bool(ayns.cfg)]", 'sorted(str(k_) for k_ in ayns.cfg)'])]
             else:
